@@ -90,7 +90,14 @@ func (g *genState) next(r *sim.Rand) *sim.Step {
 	case 3:
 		return &sim.Step{Op: "head", A: []int64{3}}
 	case 4:
-		return &sim.Step{Op: "idx", A: []int64{int64(r.Intn(6))}}
+		switch r.Weighted(6, 2, 2) {
+		case 0:
+			return &sim.Step{Op: "idx", A: []int64{int64(r.Intn(6))}}
+		case 1: // remove every validator (also the only / last one, with its duties still pending)
+			return &sim.Step{Op: "idxset", A: []int64{0}}
+		default:
+			return &sim.Step{Op: "idxset", A: []int64{int64(r.Intn(64))}}
+		}
 	case 5:
 		return &sim.Step{Op: "fail", A: []int64{fam}}
 	case 6:
